@@ -39,9 +39,71 @@ def frac_lemmas(facts):
     return out
 
 
+def _range_form(t):
+    """t = [G ->] ForAll i. (lo(i) and i < N) -> B   ==>  (G or None, quantifier, lower-bound conjuncts, N, B)  else None"""
+    guard = None
+    if z3.is_implies(t):
+        guard, t = t.arg(0), t.arg(1)
+    if not (z3.is_quantifier(t) and t.is_forall() and t.num_vars() == 1 and t.var_sort(0) == z3.IntSort()):
+        return None
+    b = t.body()
+    if not (z3.is_implies(b) and z3.is_and(b.arg(0))):
+        return None
+    lows, upper = [], None
+    for c in b.arg(0).children():
+        if z3.is_lt(c) and z3.is_var(c.arg(0)) and not _has_var(c.arg(1)):
+            if upper is not None:
+                return None
+            upper = c.arg(1)
+        else:
+            lows.append(c)
+    if upper is None:
+        return None
+    return guard, t, lows, upper, b.arg(1)
+
+
+def range_extension(ob):
+    """proof rule for 'holds for every index below k' invariants:   (forall i < N. B(i))  and  B(N)   entail   forall i < N + 1. B(i).
+    If the goal (or each quantified conjunct of it) is such a range statement and a hypothesis states the same B for the range one shorter,
+    the goal is replaced by the ground instance B(N) (and the lower-bound conjuncts at N).  Sufficient, never necessary: tried first,
+    the full goal is still tried when it fails."""
+    parts = list(ob.goal.children()) if z3.is_and(ob.goal) else [ob.goal]
+    forms = [(_range_form(h), h) for h in ob.hyps]
+    forms = [f for f, h in forms if f is not None]
+    out, used = [], False
+    for g in parts:
+        gf = _range_form(g)
+        done = False
+        if gf is not None:
+            gg, gq, glows, gup, gb = gf
+            for hg, hq, hlows, hup, hb in forms:
+                same_guard = (gg is None and hg is None) or (gg is not None and hg is not None and gg.eq(hg))
+                if same_guard and hb.eq(gb) and len(hlows) == len(glows) and all(a.eq(b) for a, b in zip(hlows, glows)) \
+                        and z3.is_true(z3.simplify(gup == hup + 1)):
+                    inst = z3.substitute_vars(z3.Implies(z3.And(*glows) if glows else z3.BoolVal(True), gb), hup)
+                    out.append(z3.Implies(gg, inst) if gg is not None else inst)
+                    done = used = True
+                    break
+        if not done:
+            out.append(g)
+    return z3.And(*out) if used else None
+
+
 def check(ob, facts, timeout_ms=10000, use_cvc5=True, extra=()):
     """first try with let-definitions hidden (opaque): dropping hypotheses is sound and keeps the query small"""
     from .engine import LET_DEFS
+    reduced = range_extension(ob) if ob.kind.startswith("inv.preserved") or "inv.preserved" in ob.oid else None
+    if reduced is not None:
+        full_goal = ob.goal
+        ob.goal = reduced
+        try:
+            st = _check(ob, facts, min(timeout_ms, 5000), False, extra)
+        finally:
+            ob.goal = full_goal
+        if st == "unsat":
+            ob.backend += " (range-extension rule: instance at the new index)"
+            return st
+        ob.status, ob.model = "unknown", None
     if any(h.get_id() in LET_DEFS for h in ob.hyps):
         full = ob.hyps
         ob.hyps = [h for h in full if h.get_id() not in LET_DEFS]
@@ -62,19 +124,28 @@ def _check(ob, facts, timeout_ms=10000, use_cvc5=True, extra=()):
             return ob.status
     except z3.Z3Exception:
         pass
-    s = z3.Solver()
-    s.set("timeout", timeout_ms)
-    if facts is not None:
-        for f in facts.items:
+    # portfolio over random seeds: an unstable query that wanders off under one seed is usually immediate under another, so the
+    # budget is spent as 1/6 + 1/6 + 1/6 + 1/2 with different seeds instead of one long run (the verdict is the first definite one)
+    r = z3.unknown
+    for share, seed in ((6, 0), (6, 7), (6, 23), (2, 101)):
+        s = z3.Solver()
+        s.set("timeout", max(500, timeout_ms // share))
+        s.set("random_seed", seed)
+        if seed:
+            s.set("smt.random_seed", seed)
+        if facts is not None:
+            for f in facts.items:
+                s.add(f)
+            for f in frac_lemmas(facts):
+                s.add(f)
+        for f in extra:
             s.add(f)
-        for f in frac_lemmas(facts):
-            s.add(f)
-    for f in extra:
-        s.add(f)
-    for h in ob.hyps:
-        s.add(h)
-    s.add(z3.Not(ob.goal))
-    r = s.check()
+        for h in ob.hyps:
+            s.add(h)
+        s.add(z3.Not(ob.goal))
+        r = s.check()
+        if r != z3.unknown:
+            break
     ob.backend = "z3-" + z3.get_version_string()
     if r == z3.unsat:
         ob.status = "unsat"
